@@ -5,7 +5,7 @@ CONSTANTS
   Kind = "nameaddr"
   Atoms <- AtomsName
   Prefix <- PfxNone
-  MaxLen = 4
+  MaxLen = 5
   Cfgs <- CfgsNA18
   Junk = 34
   EmitOn = TRUE
